@@ -700,3 +700,4 @@ func fillPattern(t *rapid.T, p string) string {
 	}
 	return out
 }
+func FuzzDispatch(f *testing.F) { propDispatch.Fuzz(f) }
